@@ -183,6 +183,12 @@ def run_instances(res, tier, seed, model_ok, search):
             nm = gen_name(rng) or "S%d" % len(names)
             if nm not in names:
                 names.append(nm)
+        if k > 1 and rng.random() < 0.15:
+            # names that differ only in their non-ASCII characters ("all strategy names, including unicode": the hash must tell them apart)
+            base = rng.choice(["", "caf", "S_1 ", "strategy-"])
+            pool = ["\u00e9", "\u4e2d", "\u03a9", "\u4e00", "\u4e8c", "\u7b56\u7565", "\U0001d538"] + ([""] if base else [])
+            rng.shuffle(pool)
+            names = [base + pool[i] for i in range(k)]
         same_name = rng.random() < 0.06 and k > 1
         if same_name:
             names[-1] = names[0]
